@@ -15,7 +15,11 @@ CONSTANTS
   AllBitsSizes,  \* payload sizes for which the replayer flips EVERY bit of every field
   SigSearch,     \* ECDSA is randomised: the binding draws up to this many signatures looking for one
                  \* whose R or S has a leading zero octet (fixed width R||S, RFC 7518 3.4)
-  Families       \* subset of {"jws", "jwe", "jwk"}
+  Families,      \* subset of {"jws", "jwe", "jwk", "values"}
+  ValSizes,      \* "values": payload sizes of the payload content classes (every length mod 16)
+  ValKms,        \* ... key management algorithms they are encrypted under
+  ValSigs,       \* ... signature algorithms they are signed with
+  ValForms       \* ... serializations
 
 GenSigAlgs == AllSigAlgs
 GenKmAlgs  == AllKmAlgs
@@ -36,9 +40,28 @@ JwkCases ==
 LegalJwk(j) == /\ (j.variant \in {"lzx", "lzy"} => j.keykind \in EcKinds)   \* leading zero byte in X / in Y
                /\ (j.keykind \in OctKinds => j.private)                      \* a symmetric key is its own secret
 
+\* Family "values" (picked dimension by dimension; Objects holds the "pattern"/"plain" matrix only):
+\*  - every payload content class x every content encryption x every size of ValSizes (zip none: the payload itself
+\*    is what the content cipher pads), under the key managements of ValKms; signed with ValSigs;
+\*  - key variant "tz" (the second half of the symmetric key is zeros) for every key management that takes a raw
+\*    symmetric key x every content encryption.
+\* Their runs are the untampered object opened with every key choice (Runs without the tamper part).
+ValObj(kind, a, e, k, n, c, kv) ==
+  [kind |-> kind, alg |-> a, enc |-> e, zip |-> "", keykind |-> k, size |-> n, aad |-> 0, profile |-> "plain",
+   pcls |-> c, keyvar |-> kv]
+ValPick ==
+  \/ \E a \in ValKms, e \in GenEncs, n \in ValSizes, c \in AllPayClasses \ {"pattern"} :
+       \E k \in {kk \in KeyKinds : KmApplicable(a, e, kk)} : obj = ValObj("jwe", a, e, k, n, c, "plain")
+  \/ \E a \in ValSigs, n \in ValSizes, c \in AllPayClasses \ {"pattern"} :
+       \E k \in {kk \in KeyKinds : SigApplicable(a, kk)} : obj = ValObj("jws", a, "", k, n, c, "plain")
+  \/ \E a \in GenKmAlgs, e \in GenEncs, n \in MatrixSizes :
+       \E k \in {kk \in OctKinds : KmApplicable(a, e, kk)} : obj = ValObj("jwe", a, e, k, n, "pattern", "tz")
+IsValue(o) == o.pcls # "pattern" \/ o.keyvar # "plain"
+
 GenInit ==
   /\ pc = "new" /\ wire = <<>> /\ tampered = {} /\ kc = "none" /\ result = <<>>
   /\ \/ obj \in GenObjects /\ form \in GenForms /\ Representable(obj, form)
+     \/ "values" \in Families /\ ValPick /\ Legal(obj) /\ form \in ValForms /\ Representable(obj, form)
      \/ "jwk" \in Families /\ obj \in {j \in JwkCases : LegalJwk(j)} /\ form = "json"
 GenNext == UNCHANGED vars
 
@@ -55,10 +78,14 @@ Expect(o, f, fld, c, choice) ==
        IN IF Cardinality(vs) = 1 THEN CHOOSE v \in vs : TRUE ELSE "either"
   ELSE Verdict(Pipeline(o, f, fld, c, choice))
 
+\* a related wrong key is built from the right one: RelForm = <<octets kept, zero octets, seeded octets appended>>
+KeyRuns(o, f) ==
+  { [tamper |-> "none", cls |-> "", key |-> choice, expect |-> Expect(o, f, "none", "", choice),
+     kform |-> IF choice \in KeyRels THEN RelForm(choice, OctBytes(o.keykind)) ELSE <<0, 0, 0>>] :
+      choice \in KeyChoices(o) }
 Runs(o, f) ==
-  { [tamper |-> "none", cls |-> "", key |-> choice, expect |-> Expect(o, f, "none", "", choice)] :
-      choice \in {"same", "other"} }
-  \cup UNION { { [tamper |-> fld, cls |-> c, key |-> "same", expect |-> Expect(o, f, fld, c, "same")] :
+  KeyRuns(o, f)
+  \cup UNION { { [tamper |-> fld, cls |-> c, key |-> "same", expect |-> Expect(o, f, fld, c, "same"), kform |-> <<0, 0, 0>>] :
                    c \in ReplayClasses(o, fld) } : fld \in Tamperable(o, f) }
 
 Carried(o, f) == {fld \in JwsFields \cup JweFields : HasField(o, f, fld)}
@@ -73,6 +100,9 @@ CaseOf ==
         privmembers |-> IF obj.private THEN PrivateMembers(Kty(obj.keykind)) ELSE {}]
   ELSE [kind |-> obj.kind, alg |-> obj.alg, enc |-> obj.enc, zip |-> obj.zip, keykind |-> obj.keykind,
         size |-> obj.size, aad |-> obj.aad, profile |-> obj.profile, form |-> form,
+        pcls |-> obj.pcls, tailval |-> TailVal(obj.pcls, obj.size), tailrun |-> TailRun(obj.pcls, obj.size),
+        padvalue |-> IF obj.kind = "jwe" /\ IsCbc(obj.enc) /\ obj.zip = "" THEN PadValue(obj.size) ELSE 0,
+        keyvar |-> obj.keyvar,
         fields |-> Carried(obj, form),
         empty |-> {fld \in Carried(obj, form) : ~NonEmpty(obj, fld)},
         eklen |-> IF obj.kind = "jwe" THEN EncryptedKeyBytes(obj.alg, obj.enc) ELSE 0,
@@ -80,6 +110,6 @@ CaseOf ==
         siglen |-> IF obj.keykind \in EcKinds /\ obj.kind = "jws" THEN 2 * CoordBytes(obj.keykind) ELSE 0,
         sigsearch |-> IF obj.keykind \in EcKinds /\ obj.kind = "jws" THEN SigSearch ELSE 0,
         bits |-> IF obj.size \in AllBitsSizes /\ obj.aad <= 1 THEN "all" ELSE "seeded",
-        runs |-> Runs(obj, form)]
+        runs |-> IF IsValue(obj) THEN KeyRuns(obj, form) ELSE Runs(obj, form)]
 Emit == PrintT(<<"CASE", ToJson(CaseOf)>>)
 =============================================================================
